@@ -1,12 +1,13 @@
 import Q1t.Model.Conditional
 import Q1t.Spec.Conditional
 import Q1t.Proofs.Bits
+import Q1t.Model.Sim
 /-!
 Proofs for C07: `collect_conditional_ranges` is the per-range run-length encoding of the mask; the
 per-shot reading of `apply_conditional_gate`.
 -/
 namespace Q1t.Proofs.Conditional
-open Q1t.Bits Q1t.Conditional Q1t.Spec.Conditional
+open Q1t.Bits Q1t.Conditional Q1t.Spec.Conditional Q1t.Proofs.Bits
 
 def tag (icol : Nat) (l : List (Nat × Bool)) : List Piece := l.map (fun nb => (icol, nb.1, nb.2))
 
@@ -337,5 +338,193 @@ theorem applyConditional_per_shot (nrShots : Nat) (control : List Bool) (st : RS
   · rw [hcounts, ← hn]; exact ranges_sum st.counts 0 control hsum
 
 end
+
+theorem gatherAll_eq (control : List Nat) (hc : ∀ c ∈ control, c < 64) (hlen : control.length ≤ 64) :
+    ∀ reg : List Word, gatherAll control reg = some (reg.map (Spec.Bits.select control)) := by
+  intro reg
+  induction reg with
+  | nil => rfl
+  | cons w ws ih => simp [gatherAll, controlWord_eq_select control w hc hlen, ih]
+
+/-- **conditional_per_shot**: the `ConditionalGate` arm, for every control list (indices below 64, at
+most 64 of them), target, register contents, layout and gate action: a shot's state gets the gate iff
+the word spelt by its selected register bits (first listed = least significant) equals the target;
+every other shot's state is untouched. (The register is an input only.) -/
+theorem condOp_per_shot {σ : Type} (g : σ → σ) (control : List Nat) (target : Word) (reg : List Word) (st : RState σ)
+    (hc : ∀ c ∈ control, c < 64) (hlen : control.length ≤ 64)
+    (hl : st.counts.length = st.states.length) (hpos : ∀ c ∈ st.counts, 0 < c) (hsum : st.counts.sum = reg.length) :
+    ∃ st', condOp g control target reg st = .ok st' ∧
+      expand st' = perShot g (expand st) (reg.map (fun w => Spec.Bits.select control w == target)) ∧
+      st'.counts.sum = reg.length := by
+  have hmask : ((reg.map (Spec.Bits.select control)).map (· == target)) =
+      reg.map (fun w => Spec.Bits.select control w == target) := by simp
+  obtain ⟨st', h1, h2, _, h4⟩ := applyConditional_per_shot g reg.length
+    (reg.map (fun w => Spec.Bits.select control w == target)) st hl hpos (by simpa using hsum) (by simp)
+  refine ⟨st', ?_, h2, h4⟩
+  rw [condOp, gatherAll_eq control hc hlen reg]
+  simp only [hmask]; exact h1
+
+/-- **conditional_histogram_order**: with the whole register as control list, in index order, the
+control word IS the register word — the histogram key; so `target` is compared in the bit order of
+histogram keys (classical bit `i` = bit `i` of the key = character `n-1-i` of the string key). -/
+theorem controlWord_full_register (nc : Nat) (w : Word) (hnc : nc ≤ 64) (hw : w.toNat < 2 ^ nc) :
+    controlWord (List.range nc) w = some w := by
+  obtain ⟨cw, h1, h2⟩ := control_word_bit (List.range nc) w (by intro c hc; simp at hc; omega) (by simpa using hnc)
+  rw [h1]; congr 1
+  apply word_ext
+  intro j _
+  rw [h2 j]
+  by_cases hj : j < nc
+  · simp [List.getElem?_range hj]
+  · have : (List.range nc)[j]? = none := by simp; omega
+    rw [this]
+    have : w.toNat.testBit j = false :=
+      Nat.testBit_lt_two_pow (Nat.lt_of_lt_of_le hw (Nat.pow_le_pow_right (by omega) (by omega)))
+    rw [BitVec.testBit_toNat] at this; exact this.symm
+
+/-- the fold step of `Q1t.Sim.scanRange` -/
+def simStep (control : List Bool) (icol : Nat) :=
+  fun (st : List (Nat × Nat × Bool) × Nat × Bool) (ibit : Nat) =>
+      let (acc, begin, prev) := st
+      if control.getD ibit prev != prev then (acc ++ [(icol, ibit - begin, prev)], ibit, !prev) else st
+
+theorem innerLoop_eq_foldl (control : List Bool) (icol : Nat) : ∀ (l : List Nat) (begin : Nat) (prev : Bool) (acc : List Piece),
+    (∀ i ∈ l, i < control.length) →
+    innerLoop control icol l begin prev acc = some (l.foldl (simStep control icol) (acc, begin, prev)) := by
+  intro l
+  induction l with
+  | nil => intro _ _ _ _; rfl
+  | cons i l ih =>
+    intro begin prev acc h
+    have hi : i < control.length := h i (by simp)
+    have hget : control.getD i prev = control[i] := by
+      rw [List.getD_eq_getElem?_getD, List.getElem?_eq_getElem hi]; rfl
+    rw [innerLoop, List.getElem?_eq_getElem hi, List.foldl_cons]
+    simp only
+    have hstep : simStep control icol (acc, begin, prev) i =
+        if (control[i] != prev) then (acc ++ [(icol, i - begin, prev)], i, !prev) else (acc, begin, prev) := by
+      simp only [simStep, hget]
+    rw [hstep]
+    split
+    · exact ih _ _ _ (fun x hx => h x (by simp [hx]))
+    · exact ih _ _ _ (fun x hx => h x (by simp [hx]))
+
+/-- **bridge to the lead's model** (`Q1t/Model/Sim.lean`): on every layout with positive counts covering
+the mask, `Q1t.Sim.collectConditionalRanges` returns the same reference pieces. -/
+theorem sim_collectLoop_eq_spec (control : List Bool) : ∀ (counts : List Nat) (icol off : Nat),
+    (∀ c ∈ counts, 0 < c) → off + counts.sum ≤ control.length →
+    Q1t.Sim.collectLoop control counts icol off = some (ranges counts icol (control.drop off)) := by
+  intro counts
+  induction counts with
+  | nil => intro icol off _ _; simp [Q1t.Sim.collectLoop, ranges]
+  | cons c cs ih =>
+    intro icol off hpos hlen
+    have hc : 0 < c := hpos c (by simp)
+    simp only [List.sum_cons] at hlen
+    have hoff : off < control.length := by omega
+    obtain ⟨c', rfl⟩ : ∃ c', c = c' + 1 := ⟨c - 1, by omega⟩
+    let bs := (control.drop (off + 1)).take c'
+    have hbslen : bs.length = c' := by simp [bs]; omega
+    have hslice : (control.drop off).take (c' + 1) = control[off] :: bs := by
+      rw [List.drop_eq_getElem_cons hoff, List.take_succ_cons]
+    have hget : ∀ t (h : t < bs.length), control[off + 1 + t]? = some bs[t] := by
+      intro t ht
+      have ht' : t < c' := by omega
+      simp only [bs, List.getElem_take, List.getElem_drop]
+      rw [List.getElem?_eq_getElem]
+    obtain ⟨acc', begin', prev', h1, h2, h3⟩ := innerLoop_rle control icol bs (off + 1) off control[off] [] (by omega) hget
+    rw [hbslen] at h1 h2 h3
+    have hfold := innerLoop_eq_foldl control icol (List.range' (off + 1) c') off control[off] [] (by
+      intro i hi; simp [List.mem_range'] at hi; omega)
+    rw [h1] at hfold
+    injection hfold with hfold
+    have e2 : off + 1 + c' = off + (c' + 1) := by omega
+    rw [e2] at h2 h3
+    have hscan : Q1t.Sim.scanRange control icol off (c' + 1) = some (tag icol (rle ((control.drop off).take (c' + 1)))) := by
+      unfold Q1t.Sim.scanRange
+      rw [List.getElem?_eq_getElem hoff]
+      simp only [Nat.add_sub_cancel]
+      have : (List.range' (off + 1) c').foldl (simStep control icol) ([], off, control[off]) = (acc', begin', prev') := hfold.symm
+      unfold simStep at this
+      rw [this]
+      have hle : off + (c' + 1) ≤ control.length := by omega
+      simp only [h2, if_true, hle, true_or]
+      have e3 : off + 1 - off = 1 := by omega
+      rw [h3, hslice, rle, e3]; simp
+    rw [Q1t.Sim.collectLoop, hscan, ih (icol + 1) (off + (c' + 1)) (fun x hx => hpos x (by simp [hx])) (by omega)]
+    simp [ranges, tag, List.drop_drop]
+
+theorem sim_collectConditionalRanges_eq (counts : List Nat) (control : List Bool)
+    (hpos : ∀ c ∈ counts, 0 < c) (hsum : counts.sum = control.length) :
+    Q1t.Sim.collectConditionalRanges counts control = collectRanges counts control := by
+  rw [collectRanges_eq_spec counts control hpos hsum]
+  have := sim_collectLoop_eq_spec control counts 0 0 hpos (by omega)
+  simpa [Q1t.Sim.collectConditionalRanges] using this
+
+theorem nat_bit_term (w isrc idst j : Nat) :
+    ((((w >>> isrc) &&& 1) <<< idst).testBit j = true) ↔ (j = idst ∧ w.testBit isrc = true) := by
+  rw [Nat.testBit_shiftLeft]
+  simp only [Bool.and_eq_true, decide_eq_true_eq, Nat.testBit_and, Nat.testBit_shiftRight]
+  constructor
+  · rintro ⟨h1, h2, h3⟩
+    have : j - idst = 0 := by
+      rcases Nat.eq_zero_or_pos (j - idst) with h | h
+      · exact h
+      · rw [Nat.testBit_one_eq_true_iff_self_eq_zero] at h3; exact h3
+    exact ⟨by omega, by simpa [this] using h2⟩
+  · rintro ⟨rfl, h⟩
+    exact ⟨by omega, by simpa using h, by simp⟩
+
+theorem sim_fold_bits (w : Nat) : ∀ (l : List (Nat × Nat)) (acc j : Nat),
+    ((l.foldl (fun acc (p : Nat × Nat) => acc ||| (((w >>> p.1) &&& 1) <<< p.2)) acc).testBit j = true) ↔
+      (acc.testBit j = true ∨ ∃ p ∈ l, j = p.2 ∧ w.testBit p.1 = true) := by
+  intro l
+  induction l with
+  | nil => intro acc j; simp
+  | cons p l ih =>
+    intro acc j
+    rw [List.foldl_cons, ih, Nat.testBit_or, Bool.or_eq_true, nat_bit_term]
+    simp only [List.mem_cons, exists_eq_or_imp]
+    constructor
+    · rintro ((h | h) | h)
+      · exact Or.inl h
+      · exact Or.inr (Or.inl h)
+      · exact Or.inr (Or.inr h)
+    · rintro (h | h | h)
+      · exact Or.inl (Or.inl h)
+      · exact Or.inl (Or.inr h)
+      · exact Or.inr h
+
+/-- **bridge**: the lead's `Q1t.Sim.controlWord` (on `Nat` words) computes the same control word. -/
+theorem sim_controlWord_eq (control : List Nat) (w : Word) (hc : ∀ c ∈ control, c < 64) (hlen : control.length ≤ 64) :
+    Q1t.Sim.controlWord control w.toNat = (controlWord control w).map BitVec.toNat := by
+  obtain ⟨cw, h1, h2⟩ := control_word_bit control w hc hlen
+  have hall : control.all Q1t.Sim.shiftOk = true := by
+    rw [List.all_eq_true]; intro c hcm; simpa [Q1t.Sim.shiftOk] using hc c hcm
+  rw [h1, Option.map_some, Q1t.Sim.controlWord, if_pos ⟨hall, hlen⟩]
+  congr 1
+  apply Nat.eq_of_testBit_eq
+  intro j
+  rw [Bool.eq_iff_iff]
+  have hf := sim_fold_bits w.toNat control.zipIdx 0 j
+  have e : (fun (acc : Nat) (x : Nat × Nat) => match x with | (isrc, idst) => acc ||| (w.toNat >>> isrc &&& 1) <<< idst) =
+      (fun acc (p : Nat × Nat) => acc ||| (((w.toNat >>> p.1) &&& 1) <<< p.2)) := by
+    funext acc x; rfl
+  rw [e, hf, BitVec.testBit_toNat, h2 j]
+  simp only [Nat.zero_testBit, Bool.false_eq_true, false_or]
+  constructor
+  · rintro ⟨p, hp, rfl, hbit⟩
+    obtain ⟨hlt, hpe⟩ := List.mem_zipIdx hp
+    simp at hlt hpe
+    have : control[p.2]? = some p.1 := by rw [List.getElem?_eq_getElem hpe.1]; simp [hpe.2]
+    rw [this]; simp only
+    rw [← BitVec.testBit_toNat]; exact hbit
+  · intro h
+    cases hj : control[j]? with
+    | none => rw [hj] at h; cases h
+    | some c =>
+      rw [hj] at h
+      refine ⟨(c, j), ?_, rfl, by rw [BitVec.testBit_toNat]; exact h⟩
+      rw [List.mem_zipIdx_iff_getElem?]; simpa using hj
 
 end Q1t.Proofs.Conditional
